@@ -329,8 +329,13 @@ type c03Obs struct {
 	dialsAfter int
 	secondOK   bool
 	secondNote string
+	second     string // the second request's outcome in the vocabulary of the first
 	dials      int
 }
+
+// c03Between, when set by a lane, runs between the first and the second request of c03RunClient
+// (h1over: wait until the read loop has dealt with the bytes the peer sent unasked).
+var c03Between func()
 
 // c03RunClient performs the two requests with a fresh real client over the given dialer.
 func c03RunClient(dial func(ctx context.Context, network, addr string) (net.Conn, error), dials func() int, head bool, stream bool, readSize int, early bool, unstick func(), cc *c03Caller) (o c03Obs) {
@@ -442,7 +447,11 @@ func c03RunClient(dial func(ctx context.Context, network, addr string) (net.Conn
 	o.dialsAfter = dials()
 	head = false
 	early = false
+	if c03Between != nil {
+		c03Between()
+	}
 	second, serr := guarded()
+	o.second = second
 	o.dials = dials()
 	want := "ok code=200 body=" + verifh.Hex(c03Second)
 	o.secondOK = second == want
